@@ -1,0 +1,77 @@
+//go:build verif
+
+package headers
+
+import (
+	"context"
+	"fmt"
+
+	"github.com/pkg/errors"
+)
+
+// Hooks for the verification harness (build tag "verif"). They only add entry points with a caller
+// chosen prune depth and read only diagnostics. Nothing here is compiled without the tag.
+
+// VerifClean is Clean with a caller chosen prune depth (the same four steps as clean).
+func (repo *Repository) VerifClean(ctx context.Context, depth int) error {
+	repo.Lock()
+	defer repo.Unlock()
+
+	if err := repo.consolidate(ctx); err != nil {
+		return errors.Wrap(err, "consolidate")
+	}
+
+	if err := repo.saveMainBranch(ctx); err != nil {
+		return errors.Wrap(err, "save main branches")
+	}
+
+	if err := repo.prune(ctx, depth); err != nil {
+		return errors.Wrap(err, "prune")
+	}
+
+	if err := saveInvalidHashes(ctx, repo.store, repo.invalidHashes); err != nil {
+		return errors.Wrap(err, "invalid hashes")
+	}
+
+	return nil
+}
+
+// VerifLoad is Load with a caller chosen prune depth.
+func (repo *Repository) VerifLoad(ctx context.Context, depth int) error {
+	repo.Lock()
+	defer repo.Unlock()
+
+	return repo.load(ctx, depth)
+}
+
+// VerifSetSplits installs chain split tables so the foreign chain logic can be driven at small
+// heights.
+func (repo *Repository) VerifSetSplits(splits Splits, required *Split) {
+	repo.Lock()
+	defer repo.Unlock()
+
+	repo.splits = splits
+	repo.requiredSplit = required
+}
+
+// VerifDump describes the in memory branches (diagnostics only).
+func (repo *Repository) VerifDump() string {
+	repo.Lock()
+	defer repo.Unlock()
+
+	result := ""
+	for i, branch := range repo.branches {
+		parent := "nil"
+		if branch.parent != nil {
+			parent = branch.parent.Name()[:8]
+		}
+		longest := ""
+		if branch == repo.longest {
+			longest = " LONGEST"
+		}
+		result += fmt.Sprintf("branch %d %s parent %s parentHeight %d offset %d headers %d height %d%s\n",
+			i, branch.Name()[:8], parent, branch.parentHeight, branch.offset, len(branch.headers),
+			branch.Height(), longest)
+	}
+	return result
+}
